@@ -477,6 +477,18 @@ func Gen(r *rand.Rand, o GenOpts) []string {
 	}
 
 	rrate := []int{3, 10, 30, 100}[r.Intn(4)] // C08: restart probability per boundary (percent)
+	ghostN := 1000000
+	ghost := func() []string {
+		// a never-valid event (own id, frame 0 or far too high) offered to Process
+		g := arbBuild("Y")
+		if g == nil {
+			return nil
+		}
+		ghostN++
+		fr := []string{"0", "1000000", "0"}[r.Intn(3)]
+		out := []string{"Y", fmt.Sprint(ghostN), g[1], g[2], g[3], g[4], fr}
+		return append(out, g[5:]...)
+	}
 	pushBoth := func(g []string) { main = append(main, g); alt = append(alt, g) }
 	altStarted := o.Mix != "C09"
 	for si, it := range order {
@@ -532,6 +544,11 @@ func Gen(r *rand.Rand, o GenOpts) []string {
 				push([]string{"G", fmt.Sprint(1 + r.Intn(int(e.def.Frame)+1))})
 			}
 		case "C04":
+			if r.Intn(6) == 0 {
+				if g := ghost(); g != nil {
+					main = append(main, g)
+				}
+			}
 			if r.Intn(3) == 0 {
 				if f, ok := wrongFrame(e); ok {
 					main = append(main, []string{"X", fmt.Sprint(e.def.N), fmt.Sprint(f)})
@@ -558,6 +575,11 @@ func Gen(r *rand.Rand, o GenOpts) []string {
 				}
 			}
 		case "C07":
+			if r.Intn(4) == 0 {
+				if g := ghost(); g != nil {
+					main = append(main, g)
+				}
+			}
 			if r.Intn(3) == 0 {
 				if f, ok := wrongFrame(e); ok {
 					main = append(main, []string{"X", fmt.Sprint(e.def.N), fmt.Sprint(f)})
